@@ -272,6 +272,85 @@ where
     }
 }
 
+
+fn w0(k: i64, v: i64) -> i64 {
+    // weights of either sign: the folded value can pass through its initial value on a non-empty map
+    (v - 2) * (k + 1)
+}
+
+/// folds whose accumulator can return to the initial value while the input is not empty, a fold
+/// built with `ClosureFold` (update + initial closures), and plain consumers downstream of folds
+fn build_more_folds<M>(ops: &mut Vec<OpRec>, log: &Log, input: &Incr<M>)
+where
+    M: TestMap + SymmetricFoldMap<i64, i64> + SymmetricMapMap<i64, i64, OutputMap<i64> = M>,
+{
+    let n = M::NAME;
+    for revert in [false, true] {
+        let (l, id) = (log.clone(), ops.len());
+        let l2 = l.clone();
+        let node = input.incr_unordered_fold(
+            0i64,
+            move |acc, k: &i64, v: &i64| {
+                l.borrow_mut().push((id, *k, "add"));
+                acc + w0(*k, *v)
+            },
+            move |acc, k: &i64, v: &i64| {
+                l2.borrow_mut().push((id, *k, "remove"));
+                acc - w0(*k, *v)
+            },
+            revert,
+        );
+        // the downstream consumer hangs off a fold of its own (unlogged), so that observing it does
+        // not make the logged one run
+        let down = input
+            .incr_unordered_fold(0i64, |acc, k: &i64, v: &i64| acc + w0(*k, *v), |acc, k: &i64, v: &i64| acc - w0(*k, *v), revert)
+            .map(|x| x * 2 + 1);
+        op(ops, format!("incr_unordered_fold<{n}>(zero-sum, revert={revert})"), OpKind::Fold { update: false }, "C15", node, |x: &i64| Out::Int(*x), |i| {
+            Out::Int(i.left.iter().map(|(k, v)| w0(*k, *v)).sum::<i64>())
+        });
+        op(ops, format!("incr_unordered_fold<{n}>(zero-sum, revert={revert}) -> map"), OpKind::Chained, "C15", down, |x: &i64| Out::Int(*x), |i| {
+            Out::Int(i.left.iter().map(|(k, v)| w0(*k, *v)).sum::<i64>() * 2 + 1)
+        });
+    }
+    {
+        let (l, id) = (log.clone(), ops.len());
+        let (l2, l3, l4) = (l.clone(), l.clone(), l.clone());
+        let fold = ClosureFold::new_add_remove(
+            move |acc: i64, k: &i64, v: &i64| {
+                l.borrow_mut().push((id, *k, "add"));
+                acc + w0(*k, *v)
+            },
+            move |acc: i64, k: &i64, v: &i64| {
+                l2.borrow_mut().push((id, *k, "remove"));
+                acc - w0(*k, *v)
+            },
+        )
+        .update(move |acc: i64, k: &i64, old: &i64, new: &i64| {
+            l3.borrow_mut().push((id, *k, "update"));
+            acc - w0(*k, *old) + w0(*k, *new)
+        })
+        .initial(move |acc: i64, m: &M| {
+            l4.borrow_mut().push((id, -2, "initial"));
+            acc + m.to_b().iter().map(|(k, v)| w0(*k, *v)).sum::<i64>()
+        })
+        .revert_to_init_when_empty(true);
+        let node = input.incr_unordered_fold_with(0i64, fold);
+        let down = input
+            .incr_unordered_fold_with(
+                0i64,
+                ClosureFold::new_add_remove(|acc: i64, k: &i64, v: &i64| acc + w0(*k, *v), |acc: i64, k: &i64, v: &i64| acc - w0(*k, *v))
+                    .revert_to_init_when_empty(true),
+            )
+            .map(|x| x - 3);
+        op(ops, format!("incr_unordered_fold_with<{n}>(ClosureFold, revert=true)"), OpKind::Fold { update: true }, "C15", node, |x: &i64| Out::Int(*x), |i| {
+            Out::Int(i.left.iter().map(|(k, v)| w0(*k, *v)).sum::<i64>())
+        });
+        op(ops, format!("incr_unordered_fold_with<{n}>(ClosureFold, revert=true) -> map"), OpKind::Chained, "C15", down, |x: &i64| Out::Int(*x), |i| {
+            Out::Int(i.left.iter().map(|(k, v)| w0(*k, *v)).sum::<i64>() - 3)
+        });
+    }
+}
+
 struct PerKeyEnv {
     outer: Var<i64>,
     alt: Var<i64>,
@@ -448,6 +527,9 @@ fn inner(seed: u64, which: &str, out: &mut Outcome) {
         build_generic::<B>(ops_ref, &log, &vb.watch());
         build_generic::<Rc<B>>(ops_ref, &log, &vrc.watch());
         build_generic::<OrdMap<i64, i64>>(ops_ref, &log, &vom.watch());
+        build_more_folds::<B>(ops_ref, &log, &vb.watch());
+        build_more_folds::<Rc<B>>(ops_ref, &log, &vrc.watch());
+        build_more_folds::<OrdMap<i64, i64>>(ops_ref, &log, &vom.watch());
         // merge on the two types that have it
         {
             let (l, id) = (log.clone(), ops_ref.len());
@@ -513,6 +595,7 @@ fn inner(seed: u64, which: &str, out: &mut Outcome) {
         }
     }
     let n_actions = 20 + rng.below(50);
+    let lazy = rng.chance(1, 2);
     let mut saw_empty = false;
     let mut reobserved_after_change = false;
     let mut removed_key = false;
@@ -562,6 +645,14 @@ fn inner(seed: u64, which: &str, out: &mut Outcome) {
                 out.actions.push(format!("alt={}", cur.alt));
             }
             8 | 9 => {
+                if rng.chance(1, 6) {
+                    // nothing at all keeps the inputs necessary for a while
+                    for i in &active {
+                        ops[*i].reader = None;
+                    }
+                    out.actions.push("unobserve everything".into());
+                    continue;
+                }
                 let i = *rng.pick(&active);
                 if ops[i].reader.is_some() {
                     ops[i].reader = None;
@@ -575,8 +666,12 @@ fn inner(seed: u64, which: &str, out: &mut Outcome) {
                 }
             }
             _ => {
-                // write the inputs in one of several equivalent ways, then stabilise
-                match rng.below(3) {
+                // write the inputs in one of several equivalent ways, then stabilise (in "lazy"
+                // histories an input that did not change is not written again, so a write made
+                // while everything was unobserved is the last one before re-observation)
+                let how = if lazy && vb.get() == cur.left { 3 } else { rng.below(3) };
+                match how {
+                    3 => {}
                     0 => {
                         vb.set(cur.left.clone());
                         vrc.set(Rc::new(cur.left.clone()));
@@ -624,15 +719,21 @@ fn inner(seed: u64, which: &str, out: &mut Outcome) {
                         }
                     }
                 }
-                vb_r.set(cur.right.clone());
-                vom_r.set(TestMap::from_b(&cur.right));
+                if !(lazy && vb_r.get() == cur.right) {
+                    vb_r.set(cur.right.clone());
+                    vom_r.set(TestMap::from_b(&cur.right));
+                }
                 if env.outer.get() != cur.outer || env.alt.get() != cur.alt {
                     for o in ops.iter_mut() {
                         o.outer_dirty = true;
                     }
                 }
-                env.outer.set(cur.outer);
-                env.alt.set(cur.alt);
+                if !(lazy && env.outer.get() == cur.outer) {
+                    env.outer.set(cur.outer);
+                }
+                if !(lazy && env.alt.get() == cur.alt) {
+                    env.alt.set(cur.alt);
+                }
                 log.borrow_mut().clear();
                 st.stabilise();
                 out.actions.push("stabilise".into());
@@ -678,8 +779,14 @@ fn inner(seed: u64, which: &str, out: &mut Outcome) {
                             })
                             .collect(),
                     };
+                    // the `initial` closure of a ClosureFold only ever runs for the first computation
+                    let initial_calls = mine.iter().filter(|e| e.1 == "initial").count();
+                    // (or when it is re-initialised from an empty input: every key differs then anyway)
+                    if initial_calls > 0 && !first && !prev.left.is_empty() {
+                        out.violations.push(("C17", format!("{}: the fold's `initial` closure ran again ({initial_calls} call(s)) although the operator had already processed {:?}; current input {:?}", o.name, prev.left, cur.left)));
+                    }
                     // operators whose function does not see the key: bound the number of calls instead
-                    let anon = mine.iter().filter(|e| e.0 < 0).count();
+                    let anon = mine.iter().filter(|e| e.0 < 0 && e.1 != "initial").count();
                     if anon > dl.len() {
                         out.violations.push(("C17", format!("{}: user function called {anon} times for {} differing keys ({:?} -> {:?})", o.name, dl.len(), prev.left, cur.left)));
                     }
